@@ -49,6 +49,11 @@ class SymAngle(Angle):
     __rmul__ = __mul__
 
 
+def _is_zero_term(t) -> bool:
+    s = z3.simplify(t, som=True)
+    return z3.is_rational_value(s) and s.numerator_as_long() == 0
+
+
 def _elementwise(fn):
     def wrapped(x, *rest):
         if isinstance(x, np.ndarray):
@@ -64,8 +69,13 @@ def _elementwise(fn):
 class SymNumPy:
     """Namespace of numpy-like functions over object arrays of V."""
 
-    def __init__(self, ctx: Ctx):
+    def __init__(self, ctx: Ctx, radicands: str = "prove"):
+        """radicands: 'prove'  - a real sqrt is used only if the solver proves the radicand's sign,
+                                 otherwise the exact principal root with If-terms;
+                      'assume' - radicands of plain sqrt calls are assumed >= 0 (a stated narrowing of
+                                 the domain to where NumPy's real sqrt is defined); no solver calls."""
         self.ctx = ctx
+        self.radicands = radicands
         self.log: list[str] = []
 
     # -- scalars
@@ -89,6 +99,8 @@ class SymNumPy:
             return self.ctx.sqrt_rational(q)
         if not x.is_real():
             raise Unsupported("sqrt of a complex symbolic value")
+        if self.radicands == "assume":
+            return x.sqrt_gen()
         try:
             if implied(self.ctx, x.ge(0), 3000):
                 return x.sqrt_unchecked()
@@ -96,6 +108,34 @@ class SymNumPy:
                 return (-x).sqrt_unchecked() * self.ctx.I()
         except Unsupported:
             pass
+        return x.sqrt(complex_branch=True)
+
+    def _csqrt_idiom(self, cmp_name, A, X, Z):
+        """select([cmp(A,0), True], [1j*sqrt(X), sqrt(Z)]) with X == -Z and the condition true exactly
+        when Z < 0: the principal square root of Z."""
+        A, X, Z = (np.asarray(t, dtype=object) for t in (A, X, Z))
+        shape = np.broadcast_shapes(A.shape, X.shape, Z.shape)
+        out = np.empty(shape, dtype=object)
+        for idx in np.ndindex(shape):
+            a, x, z = (self._v(np.broadcast_to(t, shape)[idx]) for t in (A, X, Z))
+            if any(not _is_zero_term(t) for _, t in (x + z).eq_components(0)):
+                raise Unsupported("select/sqrt idiom: branches are not sqrt(-x), sqrt(x)")
+            rel = z if cmp_name == "less" else x  # the condition must be  Z < 0  (equivalently X > 0)
+            if any(not _is_zero_term(t) for _, t in a.eq_components(rel)):
+                raise Unsupported("select/sqrt idiom: condition does not test the sign of the radicand")
+            out[idx] = self._complex_sqrt1(z)
+        return out
+
+    def _complex_sqrt1(self, x):
+        """principal square root of a real value (the ComplexSqrt idiom)"""
+        x = self._v(x)
+        q = x.as_fraction()
+        if q is not None:
+            return self.ctx.sqrt_rational(q)
+        if not x.is_real():
+            raise Unsupported("ComplexSqrt of a complex symbolic value")
+        if self.radicands == "assume":
+            return x.sqrt_gen()  # domain narrowed to radicand >= 0 (the caller proves this for its reference)
         return x.sqrt(complex_branch=True)
 
     def _cos1(self, x):
@@ -198,6 +238,7 @@ class SymNumPy:
             "greater_equal": cmp("ge"),
             "select": select,
             "einsum": einsum,
+            "csqrt_idiom": self._csqrt_idiom,
             "sum": np.sum,
             "nan": float("nan"),
             "pi": None,
@@ -252,9 +293,54 @@ def generated_source(args, expr, *, cse: bool):
     return fn, textwrap.dedent(src)
 
 
-def sym_exec(ctx: Ctx, src: str, inputs: list):
+class _ComplexSqrtIdiom(__import__("ast").NodeTransformer):
+    """select([cmp(A, 0), True], [1j*sqrt(X), sqrt(Z)], default=nan)  ->  csqrt_idiom(cmp, A, X, Z)
+
+    This is the code ampform's ComplexSqrt prints (sympy may rewrite x<0 as -x>0 and print -X in expanded
+    form).  The run-time helper verifies X + Z == 0 and that the condition selects the non-negative
+    radicand before returning the principal root; otherwise it raises Unsupported."""
+
+    def visit_Call(self, node):
+        import ast
+
+        self.generic_visit(node)
+        try:
+            if not (isinstance(node.func, ast.Name) and node.func.id == "select" and len(node.args) >= 2):
+                return node
+            conds, vals = node.args[0], node.args[1]
+            if not (isinstance(conds, ast.List) and isinstance(vals, ast.List) and len(conds.elts) == 2 and len(vals.elts) == 2):
+                return node
+            c0, c1 = conds.elts
+            v0, v1 = vals.elts
+            if not (isinstance(c0, ast.Call) and getattr(c0.func, "id", "") in ("less", "greater") and isinstance(c1, ast.Constant) and c1.value is True):
+                return node
+            if not (isinstance(c0.args[1], ast.Constant) and c0.args[1].value == 0):
+                return node
+            if not (isinstance(v1, ast.Call) and getattr(v1.func, "id", "") == "sqrt"):
+                return node
+            if not (isinstance(v0, ast.BinOp) and isinstance(v0.op, ast.Mult) and isinstance(v0.left, ast.Constant) and v0.left.value == 1j):
+                return node
+            inner = v0.right
+            if not (isinstance(inner, ast.Call) and getattr(inner.func, "id", "") == "sqrt"):
+                return node
+            new = ast.Call(
+                func=ast.Name(id="csqrt_idiom", ctx=ast.Load()),
+                args=[ast.Constant(c0.func.id), c0.args[0], inner.args[0], v1.args[0]],
+                keywords=[],
+            )
+            return ast.copy_location(new, node)
+        except Exception:  # noqa: BLE001
+            return node
+
+
+def sym_exec(ctx: Ctx, src: str, inputs: list, radicands: str = "prove"):
     """Execute lambdify-generated source on symbolic inputs; returns the function's result."""
-    ns = SymNumPy(ctx).namespace()
+    import ast
+
+    ns = SymNumPy(ctx, radicands).namespace()
+    tree = _ComplexSqrtIdiom().visit(ast.parse(src))
+    ast.fix_missing_locations(tree)
+    src = ast.unparse(tree)
     code = compile(src, "<lambdify-generated>", "exec")
     exec(code, ns)  # noqa: S102
     fn = ns["_lambdifygenerated"]
